@@ -149,8 +149,8 @@ def run(rep):
         "_populate_solver([r]), setattr(r, _model, model), reactions.add(r), one x._reaction.add(r) per metabolite / gene that listed "
         "it, one g.add_members([r]) per group that contained it, nothing else and nothing twice; glue lemmas undo-restores (model "
         "pointers, list content, back references, group members). Reaction arithmetic: __imul__ (in a model without / with context, "
-        "detached; every coefficient scaled, bounds swapped and negated iff coefficient < 0, one _populate_solver call, the two undo "
-        "registrations, lemma undo-restores; precondition inside a context: coefficient != 0), __iadd__ / __isub__ (exactly one "
+        "detached; every coefficient scaled, bounds swapped and negated iff coefficient < 0, one _populate_solver call, the three undo "
+        "registrations, lemma undo-restores exact also for the coefficient 0), __iadd__ / __isub__ (exactly one "
         "add_metabolites / subtract_metabolites call with the operand's dictionary and combine=True, the rule decision table, the "
         "operand untouched; in a model without context the EFFECT through the proved add_metabolites contract), __mul__ / __add__ / "
         "__sub__ (copies by the proved Reaction.copy contract, the in-place operator applied to the copy only, operands and every "
